@@ -86,6 +86,23 @@ CLAIMED["C18"] = dict(
          "arithmetic fact used besides monotonicity of + and * on non-negative terms.",
     ref="3 C18")
 
+CLAIMED["C15"] = dict(
+    category="other",
+    technique="abstract (symbolic) evaluation of the dispatchers, writers and totals into terms; exhaustive "
+              "evaluation of the folded dispatch term over its finite option domain; polynomial normal-form "
+              "identities for printed sums/percentages; README tables as the oracle",
+    text="Decides that (D1) the dispatch on resummation x loop order selects exactly the documented library "
+         "totals (all 6+3 configurations of the folded term), (D2) the minimal and SLHA writers emit that "
+         "dispatcher value for the same (model, options), in the block/entry the README documents per format, "
+         "the uncertainty exactly where and when documented, entries stored by key (replace, not append), (D3) "
+         "each library total is the documented sum of parts on one and the same model object, (D4) each printed "
+         "sum and percentage of both detailed writers is an algebraic identity of its printed parts / stated "
+         "reference, identical in the try and fallback branch, (D5) defaults equal the README table. These are "
+         "identities of the program text, valid for every input and all 480 option combinations.",
+    note=TRUST + "README.md is parsed as the statement of documented behaviour. Not decided: printed digits and "
+         "rounding, the echo of the input blocks (SLHAea).",
+    ref="3 C15")
+
 NOT_APPLICABLE = {
     "C03": "numerical agreement of one-loop results with an independent higher-precision evaluation over all "
            "parameter points: depends on eigen-decomposition values; no code-shape clause of its own "
